@@ -64,7 +64,7 @@ def _replay_sdf_one(data):
             m2 = m2[0]
         if [e.atomic_number for e in m2.elements] != [e.atomic_number for e in m.elements]:
             bad.append("elements differ after SDF round trip")
-        elif not np.allclose(np.asarray(m2.positions, float), m.positions, atol=0.5e-4 + 1e-9):
+        elif not np.allclose(np.asarray(m2.positions, float), m.positions, rtol=0, atol=0.5e-4 + 1e-9):
             bad.append("coordinates differ after SDF round trip: wrote %s read %s" % (m.positions.tolist(), np.asarray(m2.positions).tolist()))
         lines = text.splitlines()
         cl = lines[3]
@@ -125,7 +125,7 @@ def replay_xyz(data):
             m2 = Molecule.from_xyz_string("\n".join(out))
         if [e.atomic_number for e in m2.elements] != [e.atomic_number for e in m.elements]:
             bad.append("elements differ after XYZ round trip")
-        elif not np.allclose(np.asarray(m2.positions, float), m.positions, atol=0.5e-12 + 1e-15 * np.abs(m.positions).max()):
+        elif not np.allclose(np.asarray(m2.positions, float), m.positions, rtol=0, atol=0.5e-12 + 1e-15 * np.abs(m.positions).max()):
             bad.append("coordinates differ after XYZ round trip")
     except Exception as e:
         bad.append("XYZ round trip raises %s: %s" % (type(e).__name__, e))
@@ -166,8 +166,26 @@ def run(ctx):
             ok = ok and len(txt) == max(w, (1 if (v < 0 or spec[0] in " +") else 0) + k)
     ctx.fidelity_check("formatting model agrees with CPython on boundary values", ok)
 
-    secs = [("sdf-atom-line", sdf_atom_lines), ("sdf-counts-bonds", sdf_counts_bonds), ("sdf-records", sdf_records),
-            ("xyz", lambda c: xyz_part(c, False)), ("xyz-respelled", lambda c: xyz_part(c, True))]
+    def guarded(name, fn, fmt):
+        """code that cannot be executed on symbolic values (e.g. a cast to a machine float type) is not a harness failure:
+        the section is inconclusive and the round trip is decided on boundary values of the format on the real code"""
+        def run_(c):
+            try:
+                fn(c)
+            except symx.SymUnsupported as e:
+                c.mark_inconclusive(name, "not executable symbolically (%s): decided on boundary values instead" % e)
+                vals = [0.0, -0.00005, 0.12345, -1.5, 12.3456, -123.4567, 1234.5678, -8123.0666, 9999.9999, -9999.9999]
+                pos = [[vals[i], vals[(i + 3) % len(vals)], vals[(i + 7) % len(vals)]] for i in range(len(vals))]
+                data = {"Z": [6, 8, 17, 1, 7, 9, 16, 15, 35, 53], "pos": pos}
+                rep = replay_sdf if fmt == "sdf" else replay_xyz
+                r, det = rep(data)
+                c.record("%s: boundary values of the format round trip on the real code (fallback)" % name, "counterexample" if r else "holds", nontrivial=True, method="ground instances")
+                if r:
+                    c.violation("%s:boundary" % fmt, "%s round trip fails on boundary values: %s" % (fmt.upper(), det[0]), data, rep)
+        return run_
+    secs = [("sdf-atom-line", guarded("sdf-atom-line", sdf_atom_lines, "sdf")), ("sdf-counts-bonds", guarded("sdf-counts-bonds", sdf_counts_bonds, "sdf")),
+            ("sdf-records", guarded("sdf-records", sdf_records, "sdf")),
+            ("xyz", guarded("xyz", lambda c: xyz_part(c, False), "xyz")), ("xyz-respelled", guarded("xyz-respelled", lambda c: xyz_part(c, True), "xyz"))]
     ctx.parallel_sections(secs)
 
 
